@@ -1,5 +1,5 @@
 """C11 — tensor indexing and slicing mean what they mean in NumPy."""
-MODULES = ["contracts.c11_slicing"]
+MODULES = ["contracts.c11_slicing", "contracts.c11_eager"]
 
 HEAD = "import sys\nsys.path.insert(0, '/verif')\nfrom replay_lib.c11_native import main\n"
 
